@@ -76,12 +76,16 @@ const (
 	// lists EXPLICITLY (same id for terminating gateways): the explicit link becomes FromWildcard, takes the
 	// wildcard's TLS settings, and is deleted when the service's last instance goes away.
 	verifC07KeyExplicitOverwritten = "C07/explicit-gateway-link-overwritten-by-wildcard"
+	// deleteConfigEntryTxn removes a terminating gateway's gateway-services rows but leaves the
+	// `consul-virtual:<svc>` tagged addresses on the gateway's instances; without the rows nothing protects the
+	// services' assignments any more, so the instances end up advertising freed (and re-assigned) addresses.
+	verifC07KeyGatewayTagStale = "C07/gateway-vip-tag-survives-entry-deletion"
 )
 
 var verifC07Cfg = &vs.C07Cfg{
-	Shared: &vs.Cfg{Session: 5, Catalog: 34, Dereg: 22, Txn: 12, Config: 14, Coord: 6, SysMeta: 2, Killer: 3,
+	Shared: &vs.Cfg{Session: 3, Catalog: 36, Dereg: 22, Txn: 12, Config: 14, Coord: 5, SysMeta: 1, Killer: 3,
 		TxnCatalog: true, Peers: true, Connect: true, Rename: true, SessionChecks: true, MaxTxnOps: 4},
-	SharedW: 56, ProxyW: 12, LastW: 10, GatewayW: 7, RenameW: 4, PeerW: 6, DestW: 5,
+	SharedW: 46, ProxyW: 12, LastW: 14, GatewayW: 11, RenameW: 6, PeerW: 6, DestW: 5,
 }
 
 type verifC07Machine struct {
@@ -634,7 +638,16 @@ func (m *verifC07Machine) checkGateways(prev, cur *verifC07View, op *vs.Op) {
 		for _, e := range verifC07SortedKeys(ge.explicit) {
 			id := ge.name + "|" + e
 			if row, ok := cur.gwIDs[id]; !ok {
-				m.report("C07/R3/gateway-services/missing-explicit-row/gwkind="+ge.gwKind+"/after="+after, "gs:"+id, "after %s: %s entry %q lists %q (service|port) but gateway-services has no such row", op.Desc, ge.kind, ge.name, e)
+				key := "C07/R3/gateway-services/missing-explicit-row/gwkind=" + ge.gwKind + "/after=" + after
+				if pe := prev.gwEntries[gk]; pe != nil && pe.explicit[e] && len(pe.wild) > 0 {
+					if _, had := prev.gwIDs[id]; had && op.Kind != vs.ConfigSet && op.Kind != vs.ConfigDelete {
+						// the entry listed the service before and after, the row was there and no config entry was written:
+						// only cleanupGatewayWildcards removes single rows, and only rows marked FromWildcard, so the
+						// explicit row was overwritten by the wildcard copy and removed within this step
+						key = verifC07KeyExplicitOverwritten
+					}
+				}
+				m.report(key, "gs:"+id, "after %s: %s entry %q lists %q (service|port) but gateway-services has no such row", op.Desc, ge.kind, ge.name, e)
 			} else if row.fromWildcard {
 				// "Since this service was specified on its own, and not with a wildcard, if there is an existing entry,
 				// we overwrite it. The service entry is the source of truth." (updateGatewayServices)
@@ -728,6 +741,11 @@ func (m *verifC07Machine) checkVIPs(prev, cur *verifC07View, op *vs.Op) {
 				m.report("C07/R4/lookup-error", ent, "VirtualIPForService(%q,%q): %v", sn.PeerName, dest, err)
 			case got == "":
 				m.report(verifC07KeyVIPFreed, ent, "after %s: instance %s/%s (peer %q) advertises consul-virtual=%s for service %q, which has NO assignment (row freed while still advertised; free list %v)", op.Desc, sn.Node, sn.ServiceID, sn.PeerName, adv.Address, dest, cur.free)
+			case got != adv.Address && prev.vipOf[sn.PeerName+"|"+dest] == adv.Address:
+				// the advertisement was right before this step and the service's assignment changed under it: rows
+				// are only ever removed by freeServiceVirtualIP, so it was freed while advertised and re-assigned
+				// (from the free list) within the same step
+				m.report(verifC07KeyVIPFreed, ent, "after %s: instance %s/%s (peer %q) advertises consul-virtual=%s for service %q, whose assignment was freed and re-made as %s within this step", op.Desc, sn.Node, sn.ServiceID, sn.PeerName, adv.Address, dest, got)
 			case got != adv.Address:
 				m.report("C07/R4/advertised-ip-differs/after="+after, ent, "after %s: instance %s/%s (peer %q) advertises consul-virtual=%s, service %q is assigned %s", op.Desc, sn.Node, sn.ServiceID, sn.PeerName, adv.Address, dest, got)
 			}
@@ -743,15 +761,24 @@ func (m *verifC07Machine) checkVIPs(prev, cur *verifC07View, op *vs.Op) {
 			ent := "vip:|" + name
 			got := cur.vipOf["|"+name]
 			adv := sn.ServiceTaggedAddresses[tag].Address
-			switch {
-			case got == "":
-				m.report("C07/R4/gateway-advertises-unassigned-ip/after="+after, ent, "after %s: gateway instance %s/%s advertises %s=%s but service %q has no assignment", op.Desc, sn.Node, sn.ServiceID, tag, adv, name)
-			case got != adv:
-				m.report("C07/R4/gateway-advertised-ip-differs/after="+after, ent, "after %s: gateway instance %s/%s advertises %s=%s, service %q is assigned %s", op.Desc, sn.Node, sn.ServiceID, tag, adv, name, got)
+			if got == adv {
+				continue
 			}
+			ge := cur.gwEntries[string(structs.ServiceKindTerminatingGateway)+"|"+sn.ServiceName]
+			listed := ge != nil && (ge.explicit[name+"|0"] || (name == structs.WildcardSpecifier && ge.wild[0]))
+			key := "C07/R4/gateway-advertised-ip-differs/after=" + after
+			switch {
+			case !listed:
+				// the tag outlived the config entry (or the entry's mention of the service) it was derived from
+				key = verifC07KeyGatewayTagStale
+			case m.excused["gs:"+sn.ServiceName+"|"+name+"|0"]:
+				continue // consequence of the explicit row having been overwritten and removed (reported there)
+			case got == "":
+				key = "C07/R4/gateway-advertises-unassigned-ip/after=" + after
+			}
+			m.report(key, ent, "after %s: gateway instance %s/%s advertises %s=%s, service %q is assigned %q (listed by the gateway's entry: %v)", op.Desc, sn.Node, sn.ServiceID, tag, adv, name, got, listed)
 		}
 	}
-	_ = prev
 }
 
 // ---- running cases
@@ -772,10 +799,10 @@ func verifC07Run(f verifkit.F, c *verifkit.Case, next func(m *verifC07Machine, i
 func TestVerifC07Catalog(t *testing.T) {
 	rec := verifkit.For("C07")
 	defer rec.Flush()
-	maxSteps := verifkit.EnvInt("VERIF_C07_STEPS", 40)
+	maxSteps := verifkit.EnvInt("VERIF_C07_STEPS", 44)
 	rapid.Check(t, func(t *rapid.T) {
 		c := rec.NewCase()
-		n := rapid.IntRange(1, maxSteps).Draw(t, "steps")
+		n := rapid.IntRange(8, maxSteps).Draw(t, "steps")
 		flags := rapid.IntRange(0, 9).Draw(t, "flags") // 0: none, 1: VIPs only, else both
 		verifC07Run(t, c, func(m *verifC07Machine, i int) *vs.Op {
 			switch {
@@ -828,9 +855,30 @@ func verifC07Witnesses() map[string][]*vs.Op {
 		return s
 	}
 	vipsOn := vs.NewSysMeta(11, structs.SystemMetadataVirtualIPsEnabled, "true")
-	ingressWild := &structs.IngressGatewayConfigEntry{Kind: structs.IngressGateway, Name: "ingress-gw",
-		Listeners: []structs.IngressListener{{Port: 8000, Protocol: "http", Services: []structs.IngressService{{Name: "*"}}}}}
-	_ = ingressWild.Normalize()
+	peerUp := func(s *structs.NodeService) *structs.NodeService {
+		for i := range s.Proxy.Upstreams {
+			s.Proxy.Upstreams[i].DestinationPeer = "peerA"
+		}
+		return s
+	}
+	native := func(name string) *structs.NodeService {
+		s := typical(name)
+		s.Connect.Native = true
+		return s
+	}
+	cfg := func(idx uint64, e structs.ConfigEntry) *vs.Op {
+		if err := e.Normalize(); err != nil {
+			panic(err)
+		}
+		if err := e.Validate(); err != nil {
+			panic(err)
+		}
+		return vs.NewConfig(vs.ConfigSet, idx, structs.ConfigEntryUpsert, e)
+	}
+	ingress := func(ls ...structs.IngressListener) structs.ConfigEntry {
+		return &structs.IngressGatewayConfigEntry{Kind: structs.IngressGateway, Name: "ingress-gw", Listeners: ls}
+	}
+	wildListener := structs.IngressListener{Port: 8000, Protocol: "http", Services: []structs.IngressService{{Name: "*"}}}
 	return map[string][]*vs.Op{
 		// J: web + web-proxy->web get 240.0.0.1; deregistering the `web` instance frees web's assignment while
 		// web-proxy still advertises it; api-proxy then receives the same address.
@@ -848,11 +896,56 @@ func verifC07Witnesses() map[string][]*vs.Op {
 			reg(13, "n2", "", proxy("web", "api")),
 			vs.NewDereg(vs.DeregService, 14, "n2", "web-proxy-1", ""),
 		},
+		// L: n2/web-proxy-1 stops declaring upstream api: the whole link is deleted although n1/web-proxy-1 still
+		// declares it. n2's upstream points into peerA so that K's loss of n2's reference at step 13 is not itself a
+		// finding (references of peer upstreams are accepted either way) and L shows on a tree that still has K.
+		"witness-mesh-topology-link-dropped-on-upstream-edit": {
+			reg(12, "n2", "", peerUp(proxy("web", "api"))),
+			reg(13, "n1", "", proxy("web", "api")),
+			reg(14, "n2", "", proxy("web")),
+		},
 		// C17's finding seen through C07: a peer-imported proxy registers under an ingress wildcard and leaves a
 		// gateway-services row for a name that has no local presence (never cleaned up).
 		"witness-gateway-wildcard-row-for-peer-imported-proxy": {
-			vs.NewConfig(vs.ConfigSet, 12, structs.ConfigEntryUpsert, ingressWild),
+			cfg(12, ingress(wildListener)),
 			reg(13, "n1", "peerA", proxy("web")),
+		},
+		// web-1 stops being connect-native in place: (connect-enabled, web) stays.
+		"witness-connect-enabled-name-survives-in-place-update": {
+			reg(12, "n1", "", native("web")),
+			reg(13, "n1", "", typical("web")),
+		},
+		// service-defaults db loses its destination in place: (destination, db) stays, also after the entry is deleted.
+		"witness-destination-name-survives-defaults-rewrite": {
+			cfg(12, &structs.ServiceConfigEntry{Kind: structs.ServiceDefaults, Name: "db", Protocol: "tcp", Destination: &structs.DestinationConfig{Addresses: []string{"1.2.3.4"}, Port: 443}}),
+			cfg(13, &structs.ServiceConfigEntry{Kind: structs.ServiceDefaults, Name: "db", Protocol: "tcp"}),
+			vs.NewConfig(vs.ConfigDelete, 14, structs.ConfigEntryDelete, &structs.ServiceConfigEntry{Kind: structs.ServiceDefaults, Name: "db"}),
+		},
+		// ingress-gw routes to api on 8001 explicitly and on 8000 through the wildcard; when api's proxy goes away
+		// the wildcard row is removed and with it the topology link api>ingress-gw, although 8001 still routes to api.
+		"witness-ingress-topology-link-dropped": {
+			cfg(12, ingress(wildListener, structs.IngressListener{Port: 8001, Protocol: "tcp", Services: []structs.IngressService{{Name: "api"}}})),
+			reg(13, "n1", "", typical("api")),
+			reg(14, "n1", "", proxy("api")),
+			vs.NewDereg(vs.DeregService, 15, "n1", "api-proxy-1", ""),
+		},
+		// term-gw-1 advertises consul-virtual:web from its entry; the entry is deleted (tag stays); web's last instance
+		// goes away and nothing protects the assignment any more.
+		"witness-gateway-vip-tag-survives-entry-deletion": {
+			vipsOn,
+			vs.NewSysMeta(12, structs.SystemMetadataTermGatewayVirtualIPsEnabled, "true"),
+			cfg(13, &structs.TerminatingGatewayConfigEntry{Kind: structs.TerminatingGateway, Name: "term-gw", Services: []structs.LinkedService{{Name: "web"}}}),
+			reg(14, "n1", "", &structs.NodeService{Kind: structs.ServiceKindTerminatingGateway, Service: "term-gw", ID: "term-gw-1", Port: 8444}),
+			vs.NewConfig(vs.ConfigDelete, 15, structs.ConfigEntryDelete, &structs.TerminatingGatewayConfigEntry{Kind: structs.TerminatingGateway, Name: "term-gw"}),
+			reg(16, "n1", "", typical("web")),
+			vs.NewDereg(vs.DeregService, 17, "n1", "web-1", ""),
+		},
+		// term-gw lists api explicitly (with SNI) and a wildcard; registering api replaces the explicit row with a copy
+		// of the wildcard, deregistering it removes the link although the entry still lists api.
+		"witness-explicit-gateway-link-overwritten-by-wildcard": {
+			cfg(12, &structs.TerminatingGatewayConfigEntry{Kind: structs.TerminatingGateway, Name: "term-gw", Services: []structs.LinkedService{{Name: "*"}, {Name: "api", SNI: "api.example"}}}),
+			reg(13, "n1", "", typical("api")),
+			vs.NewDereg(vs.DeregService, 14, "n1", "api-1", ""),
 		},
 	}
 }
